@@ -20,6 +20,7 @@ type GenOpts struct {
 	Batch        bool // may issue several operations without waiting for quiescence in between
 	Burst        bool // may queue several responses at once
 	Garbage      bool // may include undecodable resources
+	AllGarbage   bool // may send responses in which EVERY resource is undecodable
 	StreamFail   bool // may toggle "NewStream fails" on servers
 	Simultaneous bool // may respond on two servers in the same step
 	Weights      map[string]int
@@ -117,7 +118,7 @@ func (g *Gen) OpCancel() (string, func()) {
 }
 
 // MakeResponse builds a response for typeURL on server srv.  kind: "valid",
-// "identical", "subset", "invalid", "garbage", "empty", "extra".
+// "identical", "subset", "invalid", "garbage", "all-garbage", "empty", "extra".
 func (g *Gen) MakeResponse(srv int, typeURL, kind string) Resp {
 	names := g.watchedNames(typeURL, srv)
 	g.ver++
@@ -180,6 +181,10 @@ func (g *Gen) MakeResponse(srv int, typeURL, kind string) Resp {
 			add(n, rv, true)
 		}
 		rsp.Resources = append(rsp.Resources, ResVal{Garbage: true})
+	case "all-garbage":
+		for k := 0; k < 1+len(names)%2; k++ {
+			rsp.Resources = append(rsp.Resources, ResVal{Garbage: true})
+		}
 	case "extra":
 		for _, n := range names {
 			add(n, rv, true)
@@ -200,6 +205,9 @@ func (g *Gen) pickKind() string {
 	kinds := []string{"valid", "valid", "valid", "identical", "subset", "invalid", "invalid", "empty", "extra"}
 	if g.O.Garbage {
 		kinds = append(kinds, "garbage")
+	}
+	if g.O.AllGarbage {
+		kinds = append(kinds, "all-garbage")
 	}
 	return kinds[g.R.Intn(len(kinds))]
 }
